@@ -197,4 +197,6 @@ def run(repo, tier):
         ('photutils.psf.photometry.IterativePSFPhotometry.__call__', 'stmt', 'error = unc.represent_as(StdDevUncertainty).quantity',
          'NDData uncertainties of any flavour are converted to standard deviations'),
     ])
+    from .common import run_generic_pack
+    run_generic_pack(repo, res, PROP, ())
     return res
